@@ -51,6 +51,9 @@ def tasks(tier):
         ts.append(Task('props.wire:run', name='C02/wire.driver-step.%d.%s' % (K, ''.join(map(str, fz)) or 'none'), fname='c02_driver_step', kwargs=dict(K=K, frozen=fz), timeout=600))
     for n in (4, 5):
         ts.append(Task('props.wire:run', name='C02/wire.const-1d.%d' % n, fname='c02_const_1d', kwargs=dict(n=n), timeout=600))
+    for fz in ((), (1,), (2,)):
+        ts.append(Task('props.wire:run', name='C02/wire.const-2d.3.%s' % (''.join(map(str, fz)) or 'none'), fname='c02_const_2d', kwargs=dict(n=3, frozen=list(fz)), timeout=900))
+    ts.append(Task('props.wire:run', name='C02/wire.compute_delj_py', fname='c02_compute_delj_py', timeout=300))
     ts.append(Task('props.C02:t_pyx', name='C02/pyx-argument-order', timeout=120))
     ts += bounded_tasks('C02', tier)
     return ts
